@@ -25,6 +25,7 @@ import (
 	"os/exec"
 	"strconv"
 	"strings"
+	"sync"
 	"time"
 
 	"github.com/moov-io/iso8583"
@@ -1038,6 +1039,66 @@ func runC04Child(t gen.Tier, r *gen.Rng, rep *Reporter) {
 			impl.N("t", impl.A("0"), impl.A(tenc), impl.A("nil"), impl.A("str"), impl.A("0"), impl.A("-")),
 			impl.N("sub", impl.A(""), impl.N("p", impl.A("s"), impl.A("0"), impl.A("ascii"), impl.A("ascii.F"), impl.A("nil"), impl.A("d"))))
 		c.fieldUnpack("field-zero-progress", spec, []byte("123"))
+	}
+
+	// S8: what decoding leaves behind in the process, and decoding in several goroutines at once.
+	// The messages are independent (every call has its own field object; only the read-only spec
+	// and whatever the library keeps at package level is shared) and carry tags never seen before.
+	if !c.tainted && c.idx > c.skip {
+		specS := "c(9999,ascii.4,t(0,berTag,nil,hex,1,-),sub(9A,p(b,3,binary,ber,nil,d)),sub(5F2A,p(b,2,binary,ber,nil,d)))"
+		spec, ok := impl.ParseTree(specS)
+		if ok {
+			mkBody := impl.ManyBody
+			n := t.N(40000, 120000)
+			line := fmt.Sprintf("F %s unpack-many %d", specS, n)
+			var grew int64
+			c.guard("retained", "", fmt.Sprintf("W %d %s", 60000, line), 24*n, func() string {
+				h0 := impl.HeapInUse()
+				for k := 0; k < n; k++ {
+					f, _ := buildField(spec)
+					if _, err := f.Unpack(mkBody(k)); err != nil {
+						return "err"
+					}
+				}
+				grew = int64(impl.HeapInUse()) - int64(h0)
+				return "ok"
+			})
+			rep.Stat("retained_bytes_after_many_decodes", int(grew))
+			if grew > 1<<20 {
+				rep.Viol(fmt.Sprintf("after decoding %d independent inputs the process retains %d more bytes of heap than before (after garbage collection): decoding leaves state behind that grows with the inputs", n, grew), line, "")
+			}
+			workers, per := 8, t.N(4000, 12000)
+			cline := fmt.Sprintf("F %s unpack-concurrently %dx%d", specS, workers, per)
+			c.guard("concurrent", "", fmt.Sprintf("W %d %s", 60000, cline), 24*workers*per, func() string {
+				var wg sync.WaitGroup
+				bad := make([]string, workers)
+				for w := 0; w < workers; w++ {
+					wg.Add(1)
+					go func(w int) {
+						defer wg.Done()
+						defer func() {
+							if r := recover(); r != nil {
+								bad[w] = fmt.Sprint(r)
+							}
+						}()
+						for k := 0; k < per; k++ {
+							f, _ := buildField(spec)
+							if _, err := f.Unpack(mkBody(1000000 + w*per + k)); err != nil {
+								bad[w] = err.Error()
+								return
+							}
+						}
+					}(w)
+				}
+				wg.Wait()
+				for _, b := range bad {
+					if b != "" {
+						panic("a goroutine decoding its own inputs failed: " + b)
+					}
+				}
+				return "ok"
+			})
+		}
 	}
 
 	rep.Stat("calls_ok", c.okN)
